@@ -2,9 +2,11 @@
    Queue gauges (retry_queue, throttle_queue): Model/QGauge.v is in lockstep with the real executors
    (harness/p_c20q.py: executor lock, every container mutation, every gauge update); the theorems below
    turn its local pairing discipline into the global laws of the property.
-   PARTIAL for the other series: that every future's life is paired (future_inprogress, exec_inprogress)
-   and that the counters match events is decided by comparing the stand-in registry with reality on real
-   stacks (harness/p_c20.py); the abstract pairing law is Model/Metrics.v. *)
+   exec_inprogress / exec_total and future_inprogress / future_total / future_cancel / future_error:
+   Model/ExecGauge.v in lockstep (harness/p_c20e.py), theorems in Props/C20_exec.v.
+   PARTIAL for the rest: that the done-callback of every finished future runs, and the remaining counters
+   (timeout, retry_total, poll_*, shutdown_cancel), are decided by comparing the stand-in registry with reality
+   on real stacks (harness/p_c20.py); the abstract pairing law is Model/Metrics.v. *)
 From Coq Require Import List ZArith Bool Arith.
 From ME Require Import Base.Machine Model.Metrics Model.QGauge Proofs.QGauge_Inv.
 Import ListNotations.
